@@ -279,19 +279,21 @@ Proof.
   - intros c k x abort E MC. cbn [step]. rewrite E, MC. eauto.
 Qed.
 
-(* ---------- quiescence: nothing stays checked out; clean() drops the bookkeeping of idle hosts ---------- *)
-Definition qpool (hp : hpool) : Prop := hlock hp = free_lock /\ busy hp = [] /\ hwaiters hp = 0%Z.
+(* ---------- ConnectionPool.clean, characterised: what one sweep leaves behind ---------- *)
+(* a host pool worth keeping: somebody is counted as waiting, or it still has a connection *)
+Definition nonidle (hp : hpool) : Prop := hwaiters hp <> 0%Z \/ ready hp <> [] \/ busy hp <> [].
 
-Lemma clean_one_q s k hp force : aget (pools s) k = Some hp -> qpool hp ->
+Lemma clean_one_g s k hp force : aget (pools s) k = Some hp ->
   let s' := a_clean_one s k hp force in
   hplock s' = hplock s /\ rtasks s' = rtasks s /\
   (forall k1, k1 <> k -> aget (pools s') k1 = aget (pools s) k1) /\
   (forall hp', aget (pools s') k = Some hp' ->
-     ready hp' <> [] /\ busy hp' = [] /\ force = false /\ (forall x, In x (ready hp') -> copen s x = true)) /\
+     hlock hp' = free_lock /\ busy hp' = busy hp /\ hwaiters hp' = hwaiters hp /\ nonidle hp' /\
+     (ready hp' <> [] -> force = false) /\ (forall x, In x (ready hp') -> copen s x = true)) /\
   (forall x, copen s' x = true -> copen s x = true) /\
   (force = false -> forall x, copen s' x = copen s x).
 Proof.
-  intros G (QL & QB & QW). unfold a_clean_one.
+  intros G. unfold a_clean_one.
   set (gone := filter (fun x => force || negb (copen s x)) (ready hp)).
   set (hp2 := hp_cleaned s hp force).
   assert (CO : forall x, (if mem x gone then false else copen s x) = true -> copen s x = true).
@@ -299,31 +301,34 @@ Proof.
   assert (CF : force = false -> forall x, (if mem x gone then false else copen s x) = copen s x).
   { intros -> x. destruct (mem x gone) eqn:E; [|reflexivity]. apply mem_In in E. unfold gone in E.
     apply filter_In in E. destruct E as [_ E]. cbn in E. now destruct (copen s x). }
-  assert (KEEP : ready hp2 <> [] -> ready hp2 <> [] /\ busy hp2 = [] /\ force = false /\
-                                     (forall x, In x (ready hp2) -> copen s x = true)).
-  { intros NE. split; [assumption|]. split; [exact QB|].
-    assert (F : force = false).
-    { unfold hp2, hp_cleaned in NE. cbn [ready] in NE. destruct force; [|reflexivity].
-      exfalso. apply NE. clear. induction (ready hp); cbn; auto. }
-    split; [assumption|]. intros x X. unfold hp2, hp_cleaned in X. cbn [ready] in X.
-    apply filter_In in X. destruct X as [_ X]. subst force. cbn in X. now destruct (copen s x). }
+  assert (KF : ready hp2 <> [] -> force = false).
+  { intros NE. unfold hp2, hp_cleaned in NE. cbn [ready] in NE. destruct force; [|reflexivity].
+    exfalso. apply NE. clear. induction (ready hp); cbn; auto. }
+  assert (KO : forall x, In x (ready hp2) -> copen s x = true).
+  { intros x X. unfold hp2, hp_cleaned in X. cbn [ready] in X.
+    apply filter_In in X. destruct X as [_ X]. destruct force; cbn in X; [discriminate|]. now destruct (copen s x). }
   destruct ((hwaiters hp2 =? 0)%Z && match ready hp2, busy hp2 with [], [] => true | _, _ => false end) eqn:DEL;
     cbv zeta; (split; [reflexivity|]); (split; [reflexivity|]); (split; [|split; [|split; [exact CO|exact CF]]]).
   - intros k1 NE. cbn. rewrite aget_adel_other, aget_aset_other; auto.
   - intros hp'. cbn. rewrite aget_adel_same. discriminate.
   - intros k1 NE. cbn. rewrite aget_aset_other; auto.
-  - intros hp'. cbn. rewrite aget_aset_same. intros [= <-]. apply KEEP.
-    intros E. assert (H : busy hp2 = []) by exact QB. assert (H0 : hwaiters hp2 = 0%Z) by exact QW.
-    rewrite E, H, H0 in DEL. discriminate.
+  - intros hp'. cbn. rewrite aget_aset_same. intros [= <-].
+    split; [reflexivity|]. split; [reflexivity|]. split; [reflexivity|]. split; [|split; [exact KF|exact KO]].
+    unfold nonidle. destruct (Z.eqb_spec (hwaiters hp2) 0) as [HW|HW]; [|now left]. right.
+    destruct (ready hp2) as [|a0 l0] eqn:ER; [|left; discriminate].
+    destruct (busy hp2) as [|b0 l1] eqn:EB; [|right; discriminate].
+    exfalso. cbn in DEL. discriminate DEL.
 Qed.
 
-Lemma cleank_q r force ks : forall s,
+Lemma cleank_g r force ks : forall s,
   hplock s = held -> NoDup ks ->
-  (forall k, In k ks -> exists hp, aget (pools s) k = Some hp /\ qpool hp) ->
+  (forall k, In k ks -> exists hp, aget (pools s) k = Some hp /\ hlock hp = free_lock) ->
   let s' := run_cleank s r ks force in
   (forall k1, ~ In k1 ks -> aget (pools s') k1 = aget (pools s) k1) /\
   (forall k1 hp', In k1 ks -> aget (pools s') k1 = Some hp' ->
-     ready hp' <> [] /\ busy hp' = [] /\ force = false /\ (forall x, In x (ready hp') -> copen s x = true)) /\
+     exists hp, aget (pools s) k1 = Some hp /\
+     hlock hp' = free_lock /\ busy hp' = busy hp /\ hwaiters hp' = hwaiters hp /\ nonidle hp' /\
+     (ready hp' <> [] -> force = false) /\ (forall x, In x (ready hp') -> copen s x = true)) /\
   (force = false -> forall x, copen s' x = copen s x) /\
   rtasks s' r = R_done /\ hplock s' = free_lock.
 Proof.
@@ -331,10 +336,10 @@ Proof.
   - rewrite (release_hp_held s HL). cbv zeta.
     split; [reflexivity|]. split; [intros k1 hp' []|]. split; [reflexivity|]. split; [cbn; apply upd_same|reflexivity].
   - inversion ND as [|? ? NIN ND']; subst.
-    destruct (Q k (or_introl eq_refl)) as (hp & G & QP). pose proof QP as (QL & _ & _).
+    destruct (Q k (or_introl eq_refl)) as (hp & G & QL).
     rewrite (acquire_k_free s (TR r) k hp G QL).
     rewrite (clean_one_nf s k hp force G QL).
-    destruct (clean_one_q s k hp force G QP) as (A1 & A2 & A3 & A4 & A5 & A6).
+    destruct (clean_one_g s k hp force G) as (A1 & A2 & A3 & A4 & A5 & A6).
     set (s1 := a_clean_one s k hp force) in *.
     destruct (IH s1) as (B1 & B2 & B3 & B4 & B5); [now rewrite A1|assumption| |].
     { intros k1 X. destruct (Q k1 (or_intror X)) as (hp1 & G1 & Q1). exists hp1. split; [|assumption].
@@ -342,12 +347,70 @@ Proof.
     cbv zeta. split; [|split; [|split; [|split; [exact B4|exact B5]]]].
     + intros k1 N. rewrite B1 by (intros X; apply N; now right). apply A3. intros ->. apply N. now left.
     + intros k1 hp' [<-|X] G'.
-      * rewrite B1 in G' by assumption. now apply A4.
-      * destruct (B2 k1 hp' X G') as (C1 & C2 & C3 & C4). split; [assumption|]. split; [assumption|].
-        split; [assumption|]. intros x Hx. apply A5. now apply C4.
+      * rewrite B1 in G' by assumption. exists hp. split; [assumption|]. now apply A4.
+      * destruct (B2 k1 hp' X G') as (hp1 & G1 & C0 & C1 & C2 & C3 & C4 & C5).
+        exists hp1. split; [rewrite <- A3; [assumption|intros ->; contradiction]|].
+        split; [assumption|]. split; [assumption|]. split; [assumption|]. split; [assumption|].
+        split; [assumption|]. intros x Hx. apply A5. now apply C5.
     + intros F x. rewrite B3 by assumption. now apply A6.
 Qed.
 
+(* what "no idle host bookkeeping, no closed idle connection" means for a whole state *)
+Definition swept (s : state) : Prop :=
+  forall k hp, aget (pools s) k = Some hp -> nonidle hp /\ (forall x, In x (ready hp) -> copen s x = true).
+
+Lemma cp_clean_swept s r force :
+  hplock s = free_lock -> NoDup (map fst (pools s)) ->
+  (forall k hp, aget (pools s) k = Some hp -> hlock hp = free_lock) ->
+  let s' := cp_clean s r force in
+  swept s' /\ rtasks s' r = R_done /\ hplock s' = free_lock /\
+  (forall k hp', aget (pools s') k = Some hp' ->
+     exists hp, aget (pools s) k = Some hp /\ busy hp' = busy hp /\ hwaiters hp' = hwaiters hp /\
+                (ready hp' <> [] -> force = false)).
+Proof.
+  intros HL ND LF. unfold cp_clean. rewrite (acquire_hp_free s (TR r) HL).
+  destruct (cleank_g r force (map fst (pools s)) (set_hplock s held)) as (B1 & B2 & B3 & B4 & B5);
+    [reflexivity|exact ND| |].
+  { intros k X. destruct (In_keys_aget _ _ X) as [hp G]. exists hp. split; [exact G|]. now apply (LF k hp). }
+  change (pools (set_hplock s held)) with (pools s) in *.
+  cbv zeta. split; [|split; [exact B4|split; [exact B5|]]].
+  - intros k hp' G'.
+    destruct (in_dec Nat.eq_dec k (map fst (pools s))) as [X|N].
+    + destruct (B2 k hp' X G') as (hp & G & C0 & C1 & C2 & C3 & C4 & C5). split; [assumption|].
+      intros x Hx. destruct (ready hp') as [|y ys] eqn:ER; [destruct Hx|].
+      rewrite B3 by (apply C4; discriminate). apply (C5 x Hx).
+    + rewrite (B1 k N) in G'. exfalso. apply N. eapply aget_In_keys; eauto.
+  - intros k hp' G'.
+    destruct (in_dec Nat.eq_dec k (map fst (pools s))) as [X|N].
+    + destruct (B2 k hp' X G') as (hp & G & C0 & C1 & C2 & C3 & C4 & C5). eauto 6.
+    + rewrite (B1 k N) in G'. exfalso. apply N. eapply aget_In_keys; eauto.
+Qed.
+
+(* ---------- every completed check in (release task) and every clean() sweeps ALL host pools ---------- *)
+Theorem release_sweeps s r dr pk s' : reachable M MAXC s ->
+  r_runnable s r = true -> step M MAXC s (LStep (TR r) dr pk) = Some s' ->
+  swept s' /\ rtasks s' r = R_done /\ hplock s' = free_lock.
+Proof.
+  intros R RUN. destruct (inv_parts s R) as (HL & HE & I). cbn [step]. unfold rel_step.
+  unfold r_runnable in RUN.
+  pose proof (i_rt I r Logic.I) as RI. unfold RtInv in RI.
+  destruct (rtasks s r) as [|[x|] f|cont|] eqn:ER; try discriminate; try contradiction.
+  - destruct RI as (hp & G & B). intros [= <-].
+    pose proof (i_pool I _ hp G) as PI.
+    rewrite (rel_start_nf MAXC s r x hp G (p_lock PI)); [|now apply mem_In].
+    destruct (cp_clean_swept (a_reldata s x hp) r (MAXC <? count_all (a_reldata s x hp))) as (S1 & S2 & S3 & _).
+    + exact HL.
+    + apply keys_aset_NoDup, (i_keys I).
+    + intros k1 hp1 G1. unfold a_reldata in G1. cbn in G1. apply aset_cases in G1.
+      destruct G1 as [[_ ->]|[_ G1]]; [reflexivity|apply (p_lock (i_pool I k1 hp1 G1))].
+    + auto.
+  - intros [= <-].
+    destruct (cp_clean_swept s r f) as (S1 & S2 & S3 & _); auto.
+    + apply (i_keys I).
+    + intros k1 hp1 G1. apply (p_lock (i_pool I k1 hp1 G1)).
+Qed.
+
+(* ---------- quiescence: nothing stays checked out; clean() drops the bookkeeping of idle hosts ---------- *)
 Theorem quiescent_clean s : reachable M MAXC s ->
   (forall c, clients s c = C_idle \/ clients s c = C_cancelled) ->
   (forall r, rtasks s r = R_none \/ rtasks s r = R_done) ->
@@ -384,22 +447,17 @@ Proof.
   { unfold rel_step. replace (rtasks s1 r) with (R_new None force); [reflexivity|].
     cbn. now rewrite upd_same. }
   exists s1, (cp_clean s1 r force). split; [reflexivity|]. split; [exact E1|].
-  unfold cp_clean. rewrite (acquire_hp_free s1 (TR r) HL).
-  destruct (cleank_q r force (map fst (pools s)) (set_hplock s1 held)) as (B1 & B2 & B3 & B4 & B5);
-    [reflexivity|apply (i_keys I)| |].
-  { intros k X. destruct (In_keys_aget _ _ X) as [hp G]. exists hp. split; [exact G|].
-    destruct (QP k hp G) as (A & _ & C & D). repeat split; assumption. }
-  change (pools (set_hplock s1 held)) with (pools s).
-  split; [exact B4|]. split; [exact B5|]. split.
-  - intros k hp' G'.
-    destruct (in_dec Nat.eq_dec k (map fst (pools s))) as [X|N].
-    + destruct (B2 k hp' X G') as (C1 & C2 & C3 & C4). repeat split; auto.
-      intros x Hx. rewrite B3 by assumption. apply (C4 x Hx).
-    + rewrite (B1 k N) in G'. exfalso. apply N. eapply aget_In_keys; eauto.
-  - intros k hp' G'.
-    destruct (in_dec Nat.eq_dec k (map fst (pools s))) as [X|N].
-    + now apply In_keys_aget.
-    + rewrite (B1 k N) in G'. eauto.
+  destruct (cp_clean_swept s1 r force) as (S1 & S2 & S3 & S4).
+  { exact HL. }
+  { apply (i_keys I). }
+  { intros k hp G. apply (p_lock (i_pool I k hp G)). }
+  split; [exact S2|]. split; [exact S3|]. split.
+  - intros k hp' G'. destruct (S4 k hp' G') as (hp & G & C1 & C2 & C3).
+    destruct (QP k hp G) as (A & _ & C & _). destruct (S1 k hp' G') as [[NI|[NI|NI]] OP].
+    + congruence.
+    + split; [assumption|]. split; [congruence|]. split; [now apply C3|assumption].
+    + congruence.
+  - intros k hp' G'. destruct (S4 k hp' G') as (hp & G & _). eauto.
 Qed.
 
 Lemma reachable_nc_reachable s : reachable_nc M MAXC s -> reachable M MAXC s.
